@@ -1,7 +1,12 @@
 package p10
 
 import (
+	"bytes"
+	"context"
 	"fmt"
+	"os"
+	"os/exec"
+	"path/filepath"
 	"strings"
 	"time"
 
@@ -227,6 +232,78 @@ func redefinitionCases(c *run.Ctx) {
 				runCase(c, cli)
 				c.End()
 			}
+		}
+	}
+}
+
+// ---------------------------------------------------------------- funcs-file functions in --format
+
+// A --format expression is a template like any other: a function of a --funcs file used there equals its body written
+// inline. Through the binary: the same histogram / table with --format '{name {0}}' (funcs file loaded) and with the
+// body in its place (no funcs file) prints the same screen.
+func formatFuncsCases(c *run.Ctx) {
+	if c.RareBin == "" || !c.Mine(3) {
+		return
+	}
+	dir, err := os.MkdirTemp(c.WorkDir, "fmtfuncs")
+	if err != nil {
+		c.Inconclusive("cannot create scratch dir: " + err.Error())
+		return
+	}
+	defer os.RemoveAll(dir)
+	ff := filepath.Join(dir, "f.funcs")
+	in := filepath.Join(dir, "in.log")
+	os.WriteFile(ff, []byte("dbl {sumi {0} {0}}\n# a comment\nwrapn <{hi {0}}> # trailing\n"), 0o644)
+	os.WriteFile(in, []byte("a 2\nb 3\na 40\nc 1000\n"), 0o644)
+	type one struct {
+		cmd        []string
+		call, body string
+	}
+	cases := []one{
+		{[]string{"histo", "-m", `(\w) (\d+)`, "-e", "{$ {1} {2}}", "--snapshot"}, "{dbl {0}}", "{sumi {0} {0}}"},
+		{[]string{"histo", "-m", `(\w) (\d+)`, "-e", "{$ {1} {2}}", "--snapshot"}, "{wrapn {0}}", "<{hi {0}}>"},
+		{[]string{"table", "-m", `(\w) (\d+)`, "-e", "{$ {1} x {2}}", "--snapshot"}, "{dbl {0}}", "{sumi {0} {0}}"},
+	}
+	runOne := func(args []string) (string, int, string) {
+		ctx, cancel := context.WithTimeout(context.Background(), 60*time.Second)
+		defer cancel()
+		cmd := exec.CommandContext(ctx, c.RareBin, args...)
+		var so, se bytes.Buffer
+		cmd.Stdout, cmd.Stderr = &so, &se
+		err := cmd.Run()
+		code := 0
+		if ee, ok := err.(*exec.ExitError); ok {
+			code = ee.ExitCode()
+		} else if err != nil {
+			return "", -1, err.Error()
+		}
+		out := so.String()
+		if i := strings.LastIndexByte(strings.TrimSuffix(out, "\n"), '\n'); i >= 0 {
+			out = out[:i+1] // the status line (byte rate) goes
+		}
+		return out, code, se.String()
+	}
+	for _, o := range cases {
+		cs := &Case{Kind: "pin", Pin: "format-funcs", Tpl: o.call, Ref: o.body}
+		c.Begin(cs, 3*time.Minute)
+		withF := append(append([]string{"--nocolor", "--funcs", ff}, o.cmd...), "--format", o.call, in)
+		inline := append(append([]string{"--nocolor"}, o.cmd...), "--format", o.body, in)
+		a, ca, ea := runOne(withF)
+		b, cb, eb := runOne(inline)
+		c.End()
+		if ca < 0 || cb < 0 {
+			c.Note("format-funcs: cannot run rare: " + ea + eb)
+			continue
+		}
+		c.Count("comparisons", 1)
+		c.Count("cmp_format_call_vs_inline", 1)
+		if cb != 0 {
+			c.Note(fmt.Sprintf("format-funcs: the inline run exits %d (%s): not judged", cb, run.Q(eb)))
+			continue
+		}
+		if ca != cb || a != b {
+			c.Violation("format-funcs:"+run.Hash64(strings.Join(o.cmd, " "), o.call), fmt.Sprintf("rare --funcs F %s --format %s (F defines %s as %s): exit %d, stderr %s, screen %s; the same with the body inline (--format %s, no funcs file): exit %d, screen %s",
+				strings.Join(o.cmd, " "), run.Q(o.call), strings.SplitN(strings.Trim(o.call, "{}"), " ", 2)[0], run.Q(o.body), ca, run.Q(ea), run.Q(a), run.Q(o.body), cb, run.Q(b)), cs)
 		}
 	}
 }
